@@ -112,10 +112,11 @@ template <class Q> void abort_scenario(Engine& E, Q& q, const AbortScen& sc, Rng
             while (!all_waiting(0, nw, rd)) relax(sp);
             if (!sc.wait_asleep) spin_iters((unsigned)r.below(3000));
             int asleep = count_asleep(0, nw);
+            hc.phase.store(2);
             q.abort(); last_abort_ret = clk.ret();
             R.stat("Q_aborts"); if (asleep) R.stat("Q_aborts_with_sleepers"); R.stat("Q_sleepers_at_abort", asleep);
             while (returned.load(std::memory_order_acquire) < rd * nw) relax(sp);      // every aborted pop has returned: quiescent again
-            progress();
+            hc.phase.store(1); progress();
         }
     } else if (cls == 'R') {
         go.store(1, std::memory_order_release);
@@ -136,6 +137,7 @@ template <class Q> void abort_scenario(Engine& E, Q& q, const AbortScen& sc, Rng
         go.store(2, std::memory_order_release);
         spin_iters((unsigned)r.below(1500));
         int asleep = count_asleep(0, sc.pushers);
+        hc.phase.store(2);
         q.abort(); last_abort_ret = clk.ret();
         R.stat("P_aborts"); if (asleep) R.stat("P_aborts_with_sleepers"); R.stat("P_sleepers_at_abort", asleep);
         while (returned.load(std::memory_order_acquire) < nw) relax(sp);
@@ -153,7 +155,7 @@ template <class Q> void abort_scenario(Engine& E, Q& q, const AbortScen& sc, Rng
         R.stat("P_pushes_aborted", aborted); R.stat("P_pushes_completed", sc.pushers - aborted);
         if (aborted >= sc.cap) R.stat("P_scenarios_with_capacity_many_aborted_pushes");
     }
-    hc.phase.store(2);
+    hc.phase.store(3);
     go.store(cls == 'Q' ? sc.rounds + 1 : 3, std::memory_order_release);
     {
         Log& lg = E.logs[me];
@@ -167,7 +169,7 @@ template <class Q> void abort_scenario(Engine& E, Q& q, const AbortScen& sc, Rng
         }
     }
     E.pool.wait();
-    hc.phase.store(3);
+    hc.phase.store(4);
     // quiescent: the queue must be empty now
     { Log& lg = E.logs[me]; size_t i = lg.begin(clk, K_TRY_POP, 0); long res = do_op(q, K_TRY_POP, 0); lg.end(clk, i, res); if (res != RS_EMPTY) out.fail("value-invented", "after every value was delivered try_pop still returned " + std::to_string(res)); }
     for (int t = 0; t <= nw; t++) out.ops.insert(out.ops.end(), E.logs[t].ops.begin(), E.logs[t].ops.end());
